@@ -919,7 +919,9 @@ class Compiled:
         self.dialect = dialect
         self.preparer = self.dialect.identifier_preparer
         if schema_translate_map:
-            self.schema_translate_map = schema_translate_map
+            # own copy: the cached Compiled must not depend on later in-place
+            # changes of the caller's dictionary (e.g. it being emptied)
+            self.schema_translate_map = dict(schema_translate_map)
             self.preparer = self.preparer._with_schema_translate(
                 schema_translate_map
             )
@@ -8043,6 +8045,8 @@ class IdentifierPreparer:
                     "schema_translate_map dictionaries."
                 )
 
+            # do not write the alias into the caller's dictionary
+            d = dict(d)
             d["_none"] = d[None]  # type: ignore[index]
 
         def replace(m):
